@@ -5,8 +5,9 @@ Bounded-exhaustive enumeration (no sampling) of
   modifier stacks   all sequences (repetition allowed) over
                     {dagger, control(c), control(ca, cb), control(cs) with
                      cs: array[qubit, 2], power(2), power(n) with n: nat}
-                    of length <= 3 (quick) / <= 4 (thorough); every stack position has
-                    its own control qubits
+                    of length <= 3 (quick; length 3 only with the bodies h(q) and
+                    rz(q, angle(a))) / <= 4 (thorough); every stack position has its
+                    own control qubits
   layout            one `with a, b, c:` item list and fully nested `with` blocks
                     (thorough, length <= 3: every split of the stack into nested groups)
   bodies            h(q) | cx(q, r) | rz(q, angle(a)) with a captured float |
@@ -95,6 +96,8 @@ def all_items(quick):
         for stack in itertools.product(ALPHABET, repeat=k):
             for comp in comps:
                 for body in BODIES:
+                    if quick and k == 3 and body not in ("B1", "B3"):
+                        continue
                     items.append({"stack": list(stack), "comp": comp, "body": body})
     return items
 
@@ -447,6 +450,24 @@ def compare_chain(observed, source):
     return out, "other"
 
 
+def quiet_validate(pkg):
+    """vlib.gload.validate with fd 2 parked on /dev/null: the Rust validator writes its
+    'HUGR valid!' line to stderr."""
+    import os
+    import sys
+    from vlib import gload
+    sys.stderr.flush()
+    saved = os.dup(2)
+    dn = os.open(os.devnull, os.O_WRONLY)
+    os.dup2(dn, 2)
+    os.close(dn)
+    try:
+        return gload.validate(pkg)
+    finally:
+        os.dup2(saved, 2)
+        os.close(saved)
+
+
 def inspect(pkg, facts, item):
     """All structural checks.  Returns (violations [(key, text)], info dict)."""
     from vlib import gload
@@ -605,7 +626,7 @@ def inspect(pkg, facts, item):
         func = tgt
         level += 1
     # (1) validation
-    err = gload.validate(pkg)
+    err = quiet_validate(pkg)
     if err is not None:
         msg = err.split("Stack backtrace")[0].strip().replace("\n", " ")
         if not size_mismatch:
@@ -703,7 +724,7 @@ def run(ctx):
                 nontrivial += 1
         for key, what in r["viol"]:
             ctx.violation(key, f"{describe(it)}: {what}", it)
-    for idx in (0, 29, 313, 1100, n - 1):
+    for idx in (0, 29, 313, 900, n - 1):
         if idx < n:
             r = recs[idx]
             samples.append({"program": describe(items[idx]), "outcome": r["kind"],
